@@ -11,8 +11,8 @@ server's byte streams are taken apart, by this module's own reading of RFC 8323 
 
 Additional fields of a case on this level:
   "transport": "tcp"
-  "csm": {"<remote>": "big" | "plain"}     the peer's CSM: Max-Message-Size 1 MiB and Block-Wise-Transfer,
-                                           or no options (RFC 8323 defaults, 1152 bytes)
+  "csm": "big" | "plain"      the peers' CSM: Max-Message-Size 1 MiB and Block-Wise-Transfer,
+                              or no options (RFC 8323 defaults, 1152 bytes)
   requests: "mtype" and "mid" are ignored; `"tkl"` is implied by the token
   handlers: "fill": n      payload / diagnostic of n bytes 'x' / 'e' instead of "payload" / "msg"
             "etag": hex    (ret only) the returned message carries that ETag option
@@ -209,7 +209,7 @@ class TcpRun(c09_run.Run):
                     tr = FakeTransport(self, r)
                     conn.connection_made(tr)
                     self.conns[r], self.transports[r] = conn, tr
-                    if case.get("csm", {}).get(str(r), "big") == "big":
+                    if case.get("csm", "big") == "big":
                         csm = frame(CSM, b"", [(2, W.uint_bytes(1024 * 1024)), (4, b"")])
                     else:
                         csm = frame(CSM, b"")
